@@ -270,6 +270,9 @@ func quotaYAML(id string, max int) string {
 type initialConfig struct {
 	Flows  map[string]string `json:"flows"`
 	Quotas map[string]string `json:"quotas,omitempty"`
+	// further configuration files by path relative to the configuration root, possibly in sub-directories
+	// (e.g. path_params/team-a/params.yaml, which the path-parameter loader reads recursively)
+	Other map[string]string `json:"other,omitempty"`
 }
 
 func cleanDir(dir string) {
@@ -282,6 +285,7 @@ func cleanDir(dir string) {
 func writeInitial(c initialConfig) {
 	cleanDir(filepath.Join(root, "flows"))
 	cleanDir(filepath.Join(root, "quotas"))
+	cleanDir(filepath.Join(root, "path_params"))
 	os.Remove(filepath.Join(root, "gateway_config.yaml"))
 	os.Remove(filepath.Join(root, "metrics_user.yaml"))
 	for n, t := range c.Flows {
@@ -290,12 +294,16 @@ func writeInitial(c initialConfig) {
 	for n, t := range c.Quotas {
 		os.WriteFile(filepath.Join(root, "quotas", n), []byte(t), 0o644)
 	}
+	for rel, t := range c.Other {
+		os.MkdirAll(filepath.Dir(filepath.Join(root, rel)), 0o755)
+		os.WriteFile(filepath.Join(root, rel), []byte(t), 0o644)
+	}
 }
 
 // diskFingerprint covers the configuration files an update addresses (flows, quotas, gateway and metrics config).
 func diskFingerprint() map[string]string {
 	out := map[string]string{}
-	for _, sub := range []string{"flows", "quotas"} {
+	for _, sub := range []string{"flows", "quotas", "path_params"} {
 		filepath.Walk(filepath.Join(root, sub), func(p string, info os.FileInfo, err error) error {
 			if err == nil && !info.IsDir() {
 				b, _ := os.ReadFile(p)
@@ -425,6 +433,7 @@ type tcase struct {
 	Endpoint string        `json:"endpoint"` // /configuration | /apply_flows
 	Flows    []payloadFile `json:"payload_flows"`
 	Quotas   []payloadFile `json:"payload_quotas,omitempty"`
+	Params   []payloadFile `json:"payload_path_params,omitempty"`
 	NoFlows  bool          `json:"payload_without_flows,omitempty"`
 	FaultOp  string        `json:"fault_op,omitempty"` // fs.store | fs.remove | fs.walk | proxy
 	FaultAt  int           `json:"fault_at,omitempty"` // 1-based index of the failing call
@@ -440,6 +449,22 @@ func genCase() *rapid.Generator[tcase] {
 		}
 		if rapid.IntRange(0, 2).Draw(t, "iq") == 1 {
 			c.Initial.Quotas = map[string]string{"q.yaml": quotaYAML("Q1", 1000)}
+		}
+		if rapid.IntRange(0, 2).Draw(t, "nested") == 1 {
+			c.Initial.Other = map[string]string{}
+			if rapid.Bool().Draw(t, "nested-pp") {
+				c.Initial.Other["path_params/team-a/params.yaml"] = "path_params:\n  - url: h.com/p/{id}\n"
+			}
+			if rapid.Bool().Draw(t, "nested-flow") {
+				c.Initial.Other["flows/archive/old.yaml.txt"] = "kept for reference\n"
+			}
+			if rapid.Bool().Draw(t, "flat-pp") {
+				c.Initial.Other["path_params/params.yaml"] = "path_params:\n  - url: h.com/q/{id}\n"
+			}
+		}
+		if rapid.IntRange(0, 3).Draw(t, "ppayload") == 1 {
+			c.Params = append(c.Params, payloadFile{Name: rapid.SampledFrom([]string{"params.yaml", "team-a/params.yaml", "team-b/more.yaml"}).Draw(t, "ppname"),
+				Text: "path_params:\n  - url: h.com/r/{rid}\n"})
 		}
 		c.Endpoint = rapid.SampledFrom([]string{"/configuration", "/configuration", "/apply_flows"}).Draw(t, "endpoint")
 		np := rapid.IntRange(0, 3).Draw(t, "npayload")
@@ -517,6 +542,13 @@ func (c tcase) body() []byte {
 			q[f.Name] = base64.StdEncoding.EncodeToString([]byte(f.Text))
 		}
 		p["quotas"] = q
+	}
+	if len(c.Params) > 0 {
+		q := map[string]string{}
+		for _, f := range c.Params {
+			q[f.Name] = base64.StdEncoding.EncodeToString([]byte(f.Text))
+		}
+		p["path_params"] = q
 	}
 	b, _ := json.Marshal(p)
 	return b
@@ -717,7 +749,6 @@ func TestConfigurationUpdates(t *testing.T) {
 		}
 	})
 }
-
 
 // TestFaultEnumeration: for fixed valid payloads on both endpoints, a dry run counts the calls of every
 // file-system operation and of the proxy's admin endpoints; then a failure is injected at each of them in turn.
